@@ -40,6 +40,8 @@ STRENGTHENED = {
     'C03_3': 'multi-step histories: query, in-place op, query again (get_derivative_spline, derivative, tangent)',
     'C06_3': 'objects built from ONE basis instance in several directions; caller basis checked afterwards',
     'C12_3': 'volumes periodic in the third direction with 1-3 lowering levels, square and non-square nets',
+    'C01_4': '=caught by the pyx translator obligation only (no failing input); generator then extended: bases placed far from the origin (|knots| >= 2^21)',
+    'C02_4': 'several evaluation calls on ONE object, checked against the object as built, control points compared bit-for-bit; rational objects with end weights != 1',
     'C16_3': '=caught, but without a failing input; oracle then extended: volumes with mixed orders (p,q,p) and full-degree nets; independent high-order quadrature oracle',
 }
 dm = os.path.join(V, 'DESIGN.md')
